@@ -255,8 +255,6 @@ def _learn_guard(fn, budget: int) -> dict:  # noqa: ANN001
 def run_history_case(case: dict) -> dict:
     """One history: the job set split into ordered chunks, each boundary crossing the model
     JSON file through the functions the CLI uses (-om / -im); compared with one-shot."""
-    from tel2puml.pv_to_puml.pv_to_puml import pv_streams_to_puml_files
-    from tel2puml.events import load_events_from_file
     install_gate_tree_monitor()
     rng = random.Random(case["rng_seed"])
     jobs = [puml.job_from_json(j) for j in case["jobs"]]
@@ -269,11 +267,26 @@ def run_history_case(case: dict) -> dict:
     out: dict[str, Any] = {"status": "ok", "chunks": [len(c) for c in case["split"]]}
     _GATE_MON["none_with_sets"] = 0
     _GATE_MON["reads"] = 0
+    def convert(pv_jobs: list[list[dict]], outdir: str, tag: str, model_in: str | None):
+        """The -om/-im code path below the argument parser: job files on disk ->
+        otel_to_puml(components="pv2puml", input_puml_models, output_puml_models=True)."""
+        from tel2puml.otel_to_puml import otel_to_puml
+        indir = os.path.join(wd, "in_" + tag)
+        os.makedirs(indir)
+        files = []
+        for i, j in enumerate(pv_jobs):
+            files.append(os.path.join(indir, f"job{i:03d}.json"))
+            with open(files[-1], "w") as fh:
+                json.dump(j, fh)
+        otel_to_puml(
+            pv_to_puml_options={"file_list": files, "job_name": name, "group_by_job_id": False},
+            global_options={"input_puml_models": [model_in] if model_in else [],
+                            "output_puml_models": True},
+            output_file_directory=outdir, components="pv2puml")
+
     try:
         one = os.path.join(wd, "one")
-        os.mkdir(one)
-        r = _learn_guard(lambda: pv_streams_to_puml_files(
-            [(name, [list(j) for j in pv])], one, {}, True), budget)
+        r = _learn_guard(lambda: convert([list(j) for j in pv], one, "one", None), budget)
         out["one_shot"] = r
         if r["ok"]:
             out["one_text"] = open(os.path.join(one, fname + ".puml")).read()
@@ -282,22 +295,20 @@ def run_history_case(case: dict) -> dict:
         steps = []
         for ci, idxs in enumerate(case["split"]):
             d = os.path.join(wd, f"chunk{ci}")
-            os.mkdir(d)
-            emap = {}
-            if prev_model is not None:
-                jn, evs = load_events_from_file(prev_model)
-                emap[jn] = evs
-                if jn != name:
-                    out.setdefault("problems", []).append(f"job name in model {jn!r} != {name!r}")
             chunk_pv = [list(pv[i]) for i in idxs]
-            r = _learn_guard(lambda: pv_streams_to_puml_files(
-                [(name, chunk_pv)], d, emap, True), budget)
+            pm = prev_model
+            r = _learn_guard(lambda: convert(chunk_pv, d, f"c{ci}", pm), budget)
             r["chunk"] = ci
             r["n_jobs"] = len(idxs)
             steps.append(r)
             if not r["ok"]:
                 break
             prev_model = os.path.join(d, fname + "_model.json")
+            if not os.path.exists(prev_model):
+                r["ok"] = False
+                r["exc_type"] = "ModelFileMissing"
+                r["exc"] = "no " + fname + "_model.json written"
+                break
         out["steps"] = steps
         if steps and steps[-1]["ok"] and len(steps) == len(case["split"]):
             d = os.path.join(wd, f"chunk{len(steps) - 1}")
